@@ -63,6 +63,10 @@ EXPLANATION += (
     ' Round 5: every verdict of the gene renaming step follows a call of the mapper (R-MUST/mapper-consulted); settings are forwarded (R-FWD).'
 )
 
+EXPLANATION += (
+    ' Round 6: integrality tests take the largest absolute deviation (R-IDIOM/abs-of-extremum); no HDF5 name is created twice in a group (R-TYPESTATE/h5-name-once, finding F8).'
+)
+
 RULE_TEXT = (
     "one obligation per effect root, per mutating helper call, per "
     "rejection point, per log conditional, per layer argument, per uns "
@@ -100,6 +104,27 @@ def check(ctx):
     check_uns(ctx, inner)
     check_lookup_by_given_name(ctx)
     check_mapper_consulted(ctx)
+    # the files validation writes are assembled without creating a name
+    # twice (sa/rules/h5names.py)
+    from ..rules.h5names import check_h5_names_created_once
+    n_h5 = 0
+    for fi_ in ctx.db.iter_functions():
+        if fi_.module.short.startswith(('validation.', 'utils.anndata_utils',
+                                        'utils.h5_utils')):
+            n_h5 += check_h5_names_created_once(ctx, fi_)
+    ctx.ok('R-TYPESTATE/h5-name-once', 'validation writers', 'package',
+           f'{n_h5} creations of HDF5 names followed along the control '
+           'flow: none is reached twice for the same name in the same '
+           'group', nontrivial=n_h5 > 0)
+    from ..rules.idioms import check_abs_of_extremum
+    n_abs = 0
+    for fi_ in ctx.db.iter_functions():
+        if fi_.module.short.startswith('validation.'):
+            n_abs += check_abs_of_extremum(ctx, fi_)
+    ctx.ok('R-IDIOM/abs-of-extremum', 'validation', 'package',
+           'integrality and range tests take the largest absolute '
+           'deviation (absolute value inside the maximum)',
+           nontrivial=False)
     from .C05 import check_tiles
     check_tiles(ctx, ('validation.utils', 'validation.validate_h5ad'),
                 floor=8)
